@@ -143,6 +143,7 @@ type Sched struct {
 	Monitor        func(ev string, args ...interface{})
 	Watchdog       time.Duration
 	nextID         int
+	pendingKill    string
 	tunables       map[string]uint64
 }
 
@@ -511,6 +512,11 @@ func (s *Sched) Perform(a Alt) {
 	t.resume <- struct{}{}
 	s.waitYield(1)
 	s.cur = nil
+	if s.pendingKill != "" {
+		p := s.pendingKill
+		s.pendingKill = ""
+		s.KillPrefix(p)
+	}
 }
 
 type EndReason int
@@ -851,7 +857,9 @@ func Durable(where string, fn func() error) error {
 	return err
 }
 
-// crashCurrent kills every thread of the current thread's node, the caller last.
+// crashCurrent crashes the current thread's node: the caller unwinds now; the driver kills the
+// node's other threads as soon as the caller has yielded (killing from inside a thread would
+// fight with the driver over the yield channel).
 func (s *Sched) crashCurrent() {
 	t := s.cur
 	prefix := nodePrefix(t.Name)
@@ -861,8 +869,7 @@ func (s *Sched) crashCurrent() {
 	if s.Monitor != nil {
 		s.Monitor("crash", prefix)
 	}
-	s.KillPrefix(prefix)
-	s.cur = t
+	s.pendingKill = prefix
 	t.killed = true
 	panic(killSentinel{})
 }
@@ -879,6 +886,14 @@ func CurrentName() string {
 func Tunable(name string, def uint64) uint64 {
 	if v, ok := Tunables[name]; ok {
 		return v
+	}
+	// instrumented packages read their tunables while initialising, before any harness code
+	// runs: the environment is the only channel that early
+	if e := os.Getenv("VERIF_TUNABLE_" + name); e != "" {
+		var v uint64
+		if _, err := fmt.Sscan(e, &v); err == nil {
+			return v
+		}
 	}
 	return def
 }
